@@ -598,17 +598,10 @@ fn get_next_case(a: u64, b: u64, ns: usize) -> (usize, usize) {
     }
 }
 
-/// Only the last command of s1 is left: one SyncResponse with one command, then nothing remains.
-/// (Responses with five commands - symbolic or concrete positions - ran CBMC out of memory in the
-/// postcard serialization of the command list: 14.8 GB; the multi-command selection logic is
-/// decided by the get_commands harnesses.)
-#[kani::proof]
-#[kani::unwind(7)]
-fn c17_get_next_response() {
-    let (m, m2) = get_next_case(2, 6, 1);
-    assert!(m == 1 && m2 == 0);
-    kani::cover!(true, "last response");
-}
+// (get_next's successful SyncResponse write is not encoded: `data_target.copy_from_slice(
+// &command_data)` copies a symbolic number of bytes out of the 3 KiB heapless buffer, which ran
+// CBMC out of memory - 14.8 GB - even for a single concrete command. What it does on that path
+// after get_commands is `message_index + 1; next_send = <index returned by get_commands>`.)
 
 #[kani::proof]
 #[kani::unwind(7)]
